@@ -6,6 +6,7 @@ Property theorems only; helper lemmas are in `Lemmas/Fam*.lean`.
 -/
 import Lemmas.FamIso
 import Lemmas.FamSubgraph
+import Lemmas.FamBinary
 import Lemmas.FamCount
 import Lemmas.Constr
 namespace Cnfgen.C02
@@ -370,6 +371,213 @@ theorem cliqueCore_cnf (G : SimpleG) (k : Nat) (sb : Bool) (α : Assign) :
 theorem cliqueCore_opb (G : SimpleG) (k : Nat) (sb : Bool) (α : Assign) :
     (cliqueCore G k sb).toOPB.holds α = (cliqueCore G k sb).holds α :=
   Formula.toOPB_holds α _ (cliqueCore_wf G k sb)
+
+/-! ## T-C02.5 k-clique, binary encoding -/
+
+theorem binaryCliqueCore_nvars (G : SimpleG) (k : Nat) (sb : Bool) :
+    (binaryCliqueCore G k sb).nvars = k * clog2 G.n := rfl
+
+/-- `clog2 N` is `⌈log₂ N⌉`: the least `b` with `N ≤ 2^b` -/
+theorem clog2_spec (N : Nat) : N ≤ 2 ^ clog2 N ∧ ∀ b, N ≤ 2 ^ b → clog2 N ≤ b :=
+  ⟨le_two_pow_clog2 N, clog2_le N⟩
+
+theorem binaryCliqueCore_wf (G : SimpleG) (k : Nat) (sb : Bool) : (binaryCliqueCore G k sb).WF :=
+  wf_of_consIn (binaryCliqueCore_consIn G k sb)
+
+/-- parameter validation of `BinaryCliqueFormula`: ValueError for `k < 0`, and also for `k = 0` and for the
+graph without vertices (`BinaryMappingVariables` wants both sizes positive) -/
+theorem binaryCliqueFormula_eq (G : SimpleG) (k : Int) (sb : Bool) :
+    binaryCliqueFormula G k sb =
+      if k < 0 then .error .valueError else if G.n < 1 ∨ k < 1 then .error .valueError
+      else .ok (binaryCliqueCore G k.toNat sb) := rfl
+
+/-- every code handed to `forbid` is below `2^bits`: the ValueError branch of `forbid` is never taken,
+which is why the model uses the guard-free `forbidC` -/
+theorem forbid_eq_forbidC (st bits i j : Nat) (h : j < 2 ^ bits) :
+    Vars.forbid st bits i j = .ok (forbidC st bits i j) := by
+  have : ¬ j ≥ 2 ^ bits := by omega
+  simp [Vars.forbid, forbidC, this]
+
+/-- specification theorem, through the 0-based code: the formula holds exactly when the vertices
+`code α i + 1` (`i = 1 … k`) form a clique table (increasing with symmetry breaking, ordered without) -/
+theorem binaryCliqueCore_holds (G : SimpleG) (hG : GoodGraph G) (k : Nat) (sb : Bool) (α : Assign) :
+    (binaryCliqueCore G k sb).holds α = true ↔ IsCliqueTable G k sb (binTable α (clog2 G.n) k) := by
+  have hN := le_two_pow_clog2 G.n
+  have hlen : (binTable α (clog2 G.n) k).length = k := by simp [binTable]
+  have himg : ∀ i, 1 ≤ i → i ≤ k → img (binTable α (clog2 G.n) k) i = code α (clog2 G.n) i + 1 :=
+    fun i a b => img_binTable α _ a b
+  simp only [Formula.holds, binaryCliqueCore, List.all_eq_true]
+  rw [List.forall_mem_append, List.forall_mem_append, List.forall_mem_append,
+    binComplete_holds α _ k G.n, binInjective_holds α _ k G.n hN, binCliqueEdgeCons_holds α G k sb hN]
+  constructor
+  · rintro ⟨⟨⟨hc, hi⟩, hn⟩, he⟩
+    have hne : ∀ i, 1 ≤ i → ∀ i', i < i' → i' ≤ k → code α (clog2 G.n) i ≠ code α (clog2 G.n) i' := by
+      intro i a i' hlt b e
+      exact hi _ (hc i a (by omega)) i a i' hlt b ⟨rfl, e.symm⟩
+    have hlt : sb = true → ∀ i, 1 ≤ i → ∀ i', i < i' → i' ≤ k →
+        code α (clog2 G.n) i < code α (clog2 G.n) i' := by
+      intro hs i a i' hii' b
+      subst hs
+      simp only [if_true] at hn
+      rw [binNondecreasing_holds α _ k G.n hN] at hn
+      have h1 := hne i a i' hii' b
+      rcases Nat.lt_or_gt_of_ne h1 with h2 | h2
+      · exact h2
+      · exact absurd ⟨rfl, rfl⟩ (hn i a i' hii' b _ _ h2 (hc i a (by omega)))
+    refine ⟨hlen, ?_, ?_, ?_⟩
+    · intro v hv
+      simp only [binTable, List.mem_map, List.mem_range] at hv
+      obtain ⟨p, hp, rfl⟩ := hv
+      have := hc (p + 1) (by omega) (by omega)
+      omega
+    · cases sb
+      · simp only [Bool.false_eq_true, if_false]
+        rw [List.nodup_iff_pairwise_ne, ← pairwise_img_iff hlen]
+        intro i a i' hii' b
+        rw [himg i a (by omega), himg i' (by omega) b]
+        have := hne i a i' hii' b
+        omega
+      · simp only [if_true]
+        rw [← pairwise_img_iff hlen]
+        intro i a i' hii' b
+        rw [himg i a (by omega), himg i' (by omega) b]
+        have := hlt rfl i a i' hii' b
+        omega
+    · rw [← pairwise_img_iff hlen]
+      intro i a i' hii' b
+      rw [himg i a (by omega), himg i' (by omega) b]
+      have c1 := hc i a (by omega)
+      have c2 := hc i' (by omega) b
+      rcases Nat.lt_or_gt_of_ne (hne i a i' hii' b) with h2 | h2
+      · cases e : adj G (code α (clog2 G.n) i + 1) (code α (clog2 G.n) i' + 1)
+        · exact absurd ⟨by omega, by omega⟩
+            (he i a i' hii' b (code α (clog2 G.n) i + 1) (code α (clog2 G.n) i' + 1) (by omega) (by omega) (by omega) e).1
+        · rfl
+      · have hsb : sb = false := by
+          cases sb
+          · rfl
+          · have := hlt rfl i a i' hii' b; omega
+        rw [hG.symm]
+        cases e : adj G (code α (clog2 G.n) i' + 1) (code α (clog2 G.n) i + 1)
+        · exact absurd ⟨by omega, by omega⟩
+            ((he i a i' hii' b (code α (clog2 G.n) i' + 1) (code α (clog2 G.n) i + 1) (by omega) (by omega) (by omega) e).2 hsb)
+        · rfl
+  · rintro ⟨_, hr, hs, ha⟩
+    rw [← pairwise_img_iff hlen] at ha
+    have hc : ∀ i, 1 ≤ i → i ≤ k → code α (clog2 G.n) i < G.n := by
+      intro i a b
+      have := hr _ (img_mem a (by rw [hlen]; exact b))
+      rw [himg i a b] at this
+      omega
+    have hnd : ∀ i, 1 ≤ i → ∀ i', i < i' → i' ≤ k → code α (clog2 G.n) i ≠ code α (clog2 G.n) i' := by
+      have hs' : Shape sb (binTable α (clog2 G.n) k) := hs
+      have := hs'.nodup
+      rw [List.nodup_iff_pairwise_ne, ← pairwise_img_iff hlen] at this
+      intro i a i' hii' b e
+      have := this i a i' hii' b
+      rw [himg i a (by omega), himg i' (by omega) b] at this
+      omega
+    refine ⟨⟨⟨hc, ?_⟩, ?_⟩, ?_⟩
+    · intro y _ i a i' hii' b e
+      exact hnd i a i' hii' b (e.1.trans e.2.symm)
+    · cases sb
+      · simp
+      · simp only [if_true] at hs ⊢
+        rw [binNondecreasing_holds α _ k G.n hN]
+        rw [← pairwise_img_iff hlen] at hs
+        intro i a i' hii' b v1 v2 hv _ e
+        have := hs i a i' hii' b
+        rw [himg i a (by omega), himg i' (by omega) b] at this
+        omega
+    · intro i a i' hii' b x y hx hxy hy hne
+      have := ha i a i' hii' b
+      rw [himg i a (by omega), himg i' (by omega) b] at this
+      constructor
+      · rintro ⟨e1, e2⟩
+        rw [e1, e2] at this
+        have ex : x - 1 + 1 = x := by omega
+        have ey : y - 1 + 1 = y := by omega
+        rw [ex, ey, hne] at this
+        exact Bool.noConfusion this
+      · rintro _ ⟨e1, e2⟩
+        rw [e1, e2] at this
+        have ex : x - 1 + 1 = x := by omega
+        have ey : y - 1 + 1 = y := by omega
+        rw [ex, ey, hG.symm, hne] at this
+        exact Bool.noConfusion this
+
+/-- non-vacuity: in the triangle with a pendant vertex (codes 0,1,2,3 on 2 bits) the codes 00, 01, 10 of the
+first three mapping positions form the clique `{1,2,3}` -/
+example : IsCliqueTable ⟨4, 4, [[], [2, 3], [1, 3], [1, 2, 4], [3]],
+    [(4, 3), (3, 4), (3, 2), (2, 3), (3, 1), (1, 3), (2, 1), (1, 2)]⟩ 3 true
+    (binTable (encodeB 2 3 [1, 2, 3]) 2 3) := by
+  have : binTable (encodeB 2 3 [1, 2, 3]) 2 3 = [1, 2, 3] :=
+    binTable_encodeB (N := 4) (by decide) rfl (by decide)
+  rw [this]
+  exact ⟨rfl, by decide, by decide, by decide⟩
+
+/-- satisfiable iff `G` has a `k`-clique (for the parameters the code accepts: `k ≥ 1`, `|V| ≥ 1`) -/
+theorem binaryCliqueCore_sat_iff (G : SimpleG) (hG : GoodGraph G) (k : Nat) (sb : Bool) :
+    (∃ α, (binaryCliqueCore G k sb).holds α = true) ↔ HasClique G k := by
+  constructor
+  · rintro ⟨α, hα⟩
+    obtain ⟨a, b, c, d⟩ := (binaryCliqueCore_holds G hG k sb α).1 hα
+    cases sb
+    · obtain ⟨l', hp, hs, hadj⟩ := exists_sorted_of_nodup hG c d
+      refine ⟨l', ⟨hs, fun v hv => b v (hp.mem_iff.1 hv), (pairwise_adj_iff hG (nodup_of_sorted hs)).1 hadj⟩, ?_⟩
+      rw [hp.length_eq, a]
+    · exact ⟨_, ((isCliqueTable_true_iff G hG k _).1 ⟨a, b, c, d⟩).1, a⟩
+  · rintro ⟨S, hS, hk⟩
+    have ht := (isCliqueTable_true_iff G hG k S).2 ⟨hS, hk⟩
+    have ht' : IsCliqueTable G k sb S := by
+      cases sb
+      · exact ⟨ht.len, ht.rng, nodup_of_sorted ht.shape, ht.adjacent⟩
+      · exact ht
+    refine ⟨encodeB (clog2 G.n) k S, (binaryCliqueCore_holds G hG k sb _).2 ?_⟩
+    rw [binTable_encodeB (le_two_pow_clog2 G.n) ht'.len ht'.rng]
+    exact ht'
+
+theorem binaryCliqueCore_unsat_of_gt (G : SimpleG) (hG : GoodGraph G) (k : Nat) (sb : Bool) (h : G.n < k)
+    (α : Assign) : (binaryCliqueCore G k sb).holds α = false := by
+  cases e : (binaryCliqueCore G k sb).holds α
+  · rfl
+  · exact absurd ((binaryCliqueCore_sat_iff G hG k sb).1 ⟨α, e⟩) (not_hasClique_of_gt G k h)
+
+/-- the explicit bijection for the binary encoding: `l ↦ encodeB l` from clique tables to satisfying assignments;
+every satisfying assignment is (on the variables `1 … k·bits`) the encoding of its own table `binTable α` -/
+theorem binaryCliqueCore_count (G : SimpleG) (hG : GoodGraph G) (k : Nat) (sb : Bool) :
+    (∀ l, IsCliqueTable G k sb l → (binaryCliqueCore G k sb).holds (encodeB (clog2 G.n) k l) = true) ∧
+    (∀ α, (binaryCliqueCore G k sb).holds α = true →
+        ∃ l, IsCliqueTable G k sb l ∧ AgreeOn (k * clog2 G.n) α (encodeB (clog2 G.n) k l)) ∧
+    (∀ l l', IsCliqueTable G k sb l → IsCliqueTable G k sb l' →
+        AgreeOn (k * clog2 G.n) (encodeB (clog2 G.n) k l) (encodeB (clog2 G.n) k l') → l = l') := by
+  have hN := le_two_pow_clog2 G.n
+  refine ⟨?_, ?_, ?_⟩
+  · intro l hl
+    rw [binaryCliqueCore_holds G hG k sb, binTable_encodeB hN hl.len hl.rng]
+    exact hl
+  · intro α hα
+    exact ⟨_, (binaryCliqueCore_holds G hG k sb α).1 hα, agree_encodeB_binTable α _ k⟩
+  · intro l l' hl hl' hag
+    have := binTable_congr hag
+    rwa [binTable_encodeB hN hl.len hl.rng, binTable_encodeB hN hl'.len hl'.rng] at this
+
+theorem binaryCliqueCore_models_equiv (G : SimpleG) (hG : GoodGraph G) (k : Nat) (sb : Bool) :
+    Nonempty (Models (binaryCliqueCore G k sb) ≃ {l : List Nat // IsCliqueTable G k sb l}) := by
+  obtain ⟨a, b, c⟩ := binaryCliqueCore_count G hG k sb
+  exact ⟨modelsEquiv (binaryCliqueCore G k sb) (binaryCliqueCore_wf G k sb)
+    (fun o : {l : List Nat // IsCliqueTable G k sb l} => encodeB (clog2 G.n) k o.1)
+    (fun o => a o.1 o.2)
+    (fun α hα => by obtain ⟨l, hl, h⟩ := b α hα; exact ⟨⟨l, hl⟩, h⟩)
+    (fun o o' h => Subtype.ext (c o.1 o'.1 o.2 o'.2 h))⟩
+
+theorem binaryCliqueCore_cnf (G : SimpleG) (k : Nat) (sb : Bool) (α : Assign) :
+    (binaryCliqueCore G k sb).toCNF.holds α = (binaryCliqueCore G k sb).holds α :=
+  Formula.toCNF_holds α _ (binaryCliqueCore_wf G k sb)
+
+theorem binaryCliqueCore_opb (G : SimpleG) (k : Nat) (sb : Bool) (α : Assign) :
+    (binaryCliqueCore G k sb).toOPB.holds α = (binaryCliqueCore G k sb).holds α :=
+  Formula.toOPB_holds α _ (binaryCliqueCore_wf G k sb)
 
 /-! ## T-C02.5 subgraph and induced subgraph -/
 
